@@ -45,7 +45,7 @@ class Agg:
         for k, v in o.witnesses.items(): self.witnesses.setdefault(k, v)
         for k, v in o.extra.items():
             if isinstance(v, (int, float)): self.extra[k] = self.extra.get(k, 0) + v
-            elif isinstance(v, list): self.extra.setdefault(k, []); self.extra[k] += v[:max(0, (400 if k == 'validate' else 20) - len(self.extra[k]))]
+            elif isinstance(v, list): self.extra.setdefault(k, []); self.extra[k] += v[:max(0, (400 if k == 'validate' else (300 if k == 'smt2' else 20)) - len(self.extra[k]))]
             elif isinstance(v, dict):
                 d = self.extra.setdefault(k, {})
                 for kk, vv in v.items(): d[kk] = max(d.get(kk, vv), vv) if isinstance(vv, (int, float)) else vv
@@ -78,6 +78,8 @@ def run_subtree(fn_path, params, prefix, max_paths, deadline, seed):
     E = get_engine(params['variants'])
     agg = Agg(); work = [list(prefix)]
     xevery = params.get('xcheck_every', 0)
+    from .props import common as _common
+    _common.XSMT['every'] = params.get('xsmt_every', 0); _common.XSMT['out'] = []
     rnd = random.Random(seed * 1000003 + hash(tuple(prefix)) % 1000003)
     while work:
         if agg.paths >= max_paths or time.time() > deadline: break
@@ -112,7 +114,7 @@ def run_subtree(fn_path, params, prefix, max_paths, deadline, seed):
         for k, v in rec.get('witnesses', {}).items(): agg.witnesses.setdefault(k, v)
         for k, v in rec.get('extra', {}).items():
             if isinstance(v, (int, float)): agg.extra[k] = agg.extra.get(k, 0) + v
-            elif isinstance(v, list): agg.extra.setdefault(k, []); agg.extra[k] += v[:max(0, (400 if k == 'validate' else 20) - len(agg.extra[k]))]
+            elif isinstance(v, list): agg.extra.setdefault(k, []); agg.extra[k] += v[:max(0, (400 if k == 'validate' else (300 if k == 'smt2' else 20)) - len(agg.extra[k]))]
             elif isinstance(v, dict):
                 d = agg.extra.setdefault(k, {})
                 for kk, vv in v.items(): d[kk] = max(d.get(kk, vv), vv) if isinstance(vv, (int, float)) else vv
@@ -120,6 +122,7 @@ def run_subtree(fn_path, params, prefix, max_paths, deadline, seed):
             t0 = time.time()
             bad = xcheck_path(E); agg.xchecked += 1; agg.z3_s += time.time() - t0
             for b in bad: agg.xcheck_bad.append(b + ' | ' + str(rec.get('sample', ''))[:200])
+    if _common.XSMT['out']: agg.extra['smt2'] = list(_common.XSMT['out']); _common.XSMT['out'] = []
     return agg, work
 
 
